@@ -148,7 +148,9 @@ FpTotal == phase = 1 => \A i \in DOMAIN r1 : /\ (r1[i].acc /\ r1[i].dedup[1]) =>
 \* the verdict and the flags do not depend on the fork flag
 ForkIndependent == phase = 1 => \A i, j \in DOMAIN r1 : r1[i].acc = r1[j].acc /\ r1[i].dedup = r1[j].dedup
 
-Emit == phase = 1 => PrintT(<<"CASE", ToJson([
+\* the full menu prints only pairs that constrain something: both accepted, or colliding (un)framed preimages
+Interesting == Menu = "quick" \/ (r1[1].acc /\ r2[1].acc) \/ (r1[1].pre.ok /\ r1[1].pre = r2[1].pre) \/ (r1[1].unf.ok /\ r1[1].unf = r2[1].unf)
+Emit == (phase = 1 /\ Interesting) => PrintT(<<"CASE", ToJson([
           k |-> "fp", c1 |-> BuildList(l1), c2 |-> BuildList(l2), salt1 |-> Salt1, salt2 |-> Salt2,
           parent1 |-> P1, parent2 |-> P2, amt1 |-> Amt1, amt2 |-> FunderAmt,
           acc |-> <<r1[1].acc, r2[1].acc>>, pe |-> (r1[1].pre.ok /\ r1[1].pre = r2[1].pre), ue |-> (r1[1].unf.ok /\ r1[1].unf = r2[1].unf),
